@@ -13,6 +13,7 @@ SEMANTIC = (
     'possible division by zero',
     'possible bit shift underflow/overflow',
     'invariant not satisfied before loop',
+    'loop invariant not satisfied',
     'invariant not satisfied at end of loop body',
     'unreachable',
     'requires not satisfied',      # the `requires` of an `assert ... by(...) requires ...` proof step
